@@ -222,6 +222,10 @@ func (w *World) resolveSpecType(pkg, name string) (*Sort, types.Type) {
 		return SInt, types.Typ[types.Uint32]
 	case "any":
 		return SRef, types.NewInterfaceType(nil, nil)
+	case "error":
+		return SRef, types.Universe.Lookup("error").Type()
+	case "string":
+		return w.Reg.unint("Str"), types.Typ[types.String]
 	case "set":
 		return arraySort(SInt, SBool), nil
 	case "bytes":
@@ -251,6 +255,16 @@ func (w *World) resolveSpecType(pkg, name string) (*Sort, types.Type) {
 	}
 	pk := w.Pkgs[p]
 	if pk == nil {
+		// a type of a dependency, named by its package name (gjson.Result)
+		for _, mp := range w.Pkgs {
+			for _, imp := range mp.Imports {
+				if imp.Name == p && imp.Types != nil {
+					if obj := imp.Types.Scope().Lookup(n); obj != nil {
+						return w.sortOf(obj.Type()), obj.Type()
+					}
+				}
+			}
+		}
 		panic("spec type: unknown package in " + name)
 	}
 	obj := pk.Types.Scope().Lookup(n)
